@@ -18,6 +18,15 @@ use octseq::parse::Parser;
 #[cfg(all(feature = "std", not(test)))]
 use std::time::{SystemTime, UNIX_EPOCH};
 
+/// Verification hook (only with `--cfg domain_verif`): when set on the
+/// current thread, [`Serial::now`] (and thus `Timestamp::now`) reports this
+/// value instead of the system time. Without the cfg nothing changes.
+#[cfg(all(feature = "std", domain_verif))]
+std::thread_local! {
+    pub static VERIF_NOW: core::cell::Cell<Option<u32>> =
+        const { core::cell::Cell::new(None) };
+}
+
 //------------ Serial --------------------------------------------------------
 
 /// A serial number.
@@ -53,6 +62,10 @@ impl Serial {
     #[cfg(feature = "std")]
     #[must_use]
     pub fn now() -> Self {
+        #[cfg(domain_verif)]
+        if let Some(value) = VERIF_NOW.with(|cell| cell.get()) {
+            return Self(value);
+        }
         let now = SystemTime::now();
         let value = match now.duration_since(UNIX_EPOCH) {
             Ok(value) => value,
